@@ -139,7 +139,7 @@ struct CSide {
       compare_selected(m, PROP, "c-array-unknown-changed-state", "after C masa_get_array of an unknown array");
       return;
     }
-    int len = R->below(33);
+    int len = R->below(4) == 0 ? R->below(3) : R->below(33);   // lengths 0, 1, 2 often: the empty array is a value like any other
     double* src = (double*)malloc(sizeof(double) * (size_t)std::max(len, 1));   // exact size: ASan sees any overrun
     std::vector<double> v((size_t)len);
     for (int i = 0; i < len; i++) { v[(size_t)i] = (double)R->uni(-3.0L, 3.0L); src[i] = v[(size_t)i]; }
